@@ -19,8 +19,8 @@ G1Pair == {Gen(1, {0, 1}, 2)}
 G12 == G1Some \cup G2Quick
 G1Small == {Gen(1, {0, 1}, 2), Gen(1, {0, 2, 3}, 2)}
 G12q == {Gen(1, {0, 2, 3}, 2), GCB}
-H0 == {0}
-H013 == {0, 1, 3}
+H0 == {-1}
+H013 == {-1, 0, 1, 3}
 VARIABLES g, start, dna, w, es, vtk, indel, heap, st, ph, res
 vars == <<g, start, dna, w, es, vtk, indel, heap, st, ph, res>>
 NN == 4^g.k
@@ -37,7 +37,7 @@ OnlySubs(s) == \A i \in 1..Len(s) : s[i][1] = "S"
 InitEdits == /\ g \in Graphs /\ start \in {u \in 0..(4^g.k - 1) : g.live[u] # {}}
              /\ w \in {WalkOf(g, start, cs) : cs \in [1..WalkLen -> 0..(MaxDeg(g) - 1)]}
              /\ es \in EditSets(g.k, WalkLen) /\ Admissible(w, es, g.k)
-             /\ dna = ApplyAll(w, es) /\ vtk \in {"none", "right"} /\ heap = 0
+             /\ dna = ApplyAll(w, es) /\ vtk \in {"none", "right"} /\ heap = -1
              /\ indel \in (IF OnlySubs(es) THEN BOOLEAN ELSE {TRUE})
 InitStrings == /\ g \in Graphs /\ start \in {u \in 0..(4^g.k - 1) : g.live[u] # {}}
                /\ dna \in UNION {[1..n -> 0..3] : n \in g.k..MaxLen}
